@@ -126,6 +126,23 @@ func genC19Proxy(repo string) (string, string, error) {
 			return true
 		})
 		facts[name+"_real_ip_when_empty"] = cond
+		// the injected value is the caller's remote address (ctx.IP()), nothing else
+		fromIP, assigns, valueArg := false, 0, false
+		ast.Inspect(fd.Body, func(x ast.Node) bool {
+			if as, ok := x.(*ast.AssignStmt); ok && len(as.Lhs) == 1 && len(as.Rhs) == 1 && c.str(as.Lhs[0]) == "label.RealIP" {
+				assigns++
+				if c.str(as.Rhs[0]) == "ctx.IP()" {
+					fromIP = true
+				}
+			}
+			if ce, ok := x.(*ast.CallExpr); ok && len(ce.Args) == 2 && c.str(ce.Args[0]) == "erpc.MetaRealIP" &&
+				(c.str(ce.Fun) == "erpc.WithSetMeta" || c.str(ce.Fun) == "erpc.WithAddMeta") {
+				valueArg = c.str(ce.Args[1]) == "label.RealIP"
+			}
+			return true
+		})
+		// two assignments: ctx.IP() under the emptiness test, the caller's own value otherwise
+		facts[name+"_real_ip_is_remote_addr"] = fromIP && assigns == 2 && valueArg
 		// the returned status goes through badGateway
 		ret := false
 		ast.Inspect(fd.Body, func(x ast.Node) bool {
@@ -246,6 +263,7 @@ func c19Render(f map[string]bool, lo, hi int64, errMsg string) string {
 	fmt.Fprintf(&sb, "Definition src_nil_guard : bool := %s.\n", b("call_nil_guard"))
 	fmt.Fprintf(&sb, "Definition src_copy_status : bool := %s.\n", and(b("copy_status"), and(b("call_returns_bad_gateway"), b("push_returns_bad_gateway"))))
 	fmt.Fprintf(&sb, "Definition src_set_real_ip : bool := %s.\n", and(and(b("call_set_real_ip"), b("push_set_real_ip")), and(b("call_real_ip_when_empty"), b("push_real_ip_when_empty"))))
+	fmt.Fprintf(&sb, "Definition src_real_ip_is_remote_addr : bool := %s.\n", and(b("call_real_ip_is_remote_addr"), b("push_real_ip_is_remote_addr")))
 	fmt.Fprintf(&sb, "Definition src_single_forward : bool := %s.\n", and(b("call_single_forward"), b("push_single_forward")))
 	fmt.Fprintf(&sb, "Definition src_request_meta_add : bool := %s.\n", and(b("call_request_meta_add"), b("push_request_meta_add")))
 	fmt.Fprintf(&sb, "Definition src_reply_meta_set : bool := %s.\n", b("call_reply_meta_set"))
